@@ -34,6 +34,18 @@ class Lift:
         return [z3.substitute(c, *subs) for c in self.canon]
 
 
+class _Const0:
+    """a lifted symbol without arguments (the data has no free constants): behaves like a 0-ary function"""
+    def __init__(self, c):
+        self.c = c
+
+    def __call__(self, *a):
+        return self.c
+
+    def name(self):
+        return self.c.decl().name()
+
+
 def lift(kind, data_fn, outs):
     """data_fn(t: SV) -> list of scalar values the operation depends on (at index t and globally);
     outs: list of (suffix, [extra index sorts], result sort).  Returns (Lift, frees): function k is lift.fns[k]."""
@@ -58,7 +70,12 @@ def lift(kind, data_fn, outs):
         n = len(LIFTS)
         fns = []
         for suffix, idx_sorts, rs in outs:
-            fns.append(z3.Function(f"{kind}{suffix}{n}", *idx_sorts, *[p.sort() for p in placeholders], rs))
+            doms = list(idx_sorts) + [p.sort() for p in placeholders]
+            if doms:
+                fns.append(z3.Function(f"{kind}{suffix}{n}", *doms, rs))
+            else:
+                c0 = z3.Const(f"{kind}{suffix}{n}", rs)
+                fns.append(_Const0(c0))
         L = Lift(kind, key, fns, placeholders, canon)
         LIFTS[key] = L
     return L, frees
@@ -109,6 +126,8 @@ def select(mask_reader, n):
     sel_app = lambda t: SV(SEL(znum(t), *frees))
     rank_app = lambda j: SV(RANK(znum(j), *frees))
     cur().qfacts.append(("select-increasing", cnt, sel_app, rank_app))
+    if not is_conc(cnt):
+        cur().assume(sv.and_(sv.cmp(">=", cnt, 0), sv.cmp("<=", cnt, n)))       # a count of positions of [0, n)
     return A.new_arr((A.simp(cnt),), lambda idx: sel_app(idx[0]), "int"), sel_app, rank_app, cnt
 
 
@@ -166,3 +185,32 @@ def argpartition(a, kth):
     P, PINV = _perm("ARGPART", key, m, extra=[kth])
     cur().qfacts.append(("argpartition", m, key, P, PINV, kth))
     return A.new_arr((m,), lambda idx: P(idx[0]), "int")
+
+
+def extremum(key_reader, n, which):
+    """ASSUMED relational contract of min / max over a symbolic axis: the result is attained at a witness position W and bounds
+    every element.  W is a lifted function of the data (so the same reduction executed for another loop index is the same
+    function at that index); the bound is offered to contracts as qfact (which, n, reader, M, W)."""
+    I = z3.IntSort()
+    cur().require(sv.cmp(">=", n, 1), f"{which}-of-nonempty")
+    L, frees = lift("ARG" + which.upper(), lambda t: [key_reader(t), n], [("", [], I)])
+    W = L.fns[0]
+
+    def f_w(*ps):
+        nn = L.data_at(z3.IntVal(0), ps)[1]
+        w = W(*ps)
+        return z3.Implies(nn >= 1, z3.And(w >= 0, w < nn))
+    _register(W.name(), f_w)
+    w = SV(W(*frees))
+    if not frees:
+        cur().assume(sv.and_(sv.cmp(">=", w, 0), sv.cmp("<", w, n)))
+    M = key_reader(w)
+
+    def inst(t, ps):
+        """(key at position t, length, extremum) of the same reduction for the parameter values ps (aligned with `frees`)"""
+        ps = [znum(x) for x in ps]
+        key_t, nn = L.data_at(znum(t), ps)
+        key_w = L.data_at(W(*ps), ps)[0]
+        return sv.wrap(key_t), sv.wrap(nn), sv.wrap(key_w)
+    cur().qfacts.append((which, n, (lambda idx: key_reader(idx[0])), M, w, dict(frees=list(frees), inst=inst)))
+    return M
